@@ -213,6 +213,229 @@ AMOUNT_CTORS = re.compile(r"zcash_protocol::value::(Zatoshis|ZatBalance)::(from_
 UNCHECKED = re.compile(r"zcash_protocol::value::(Zatoshis|ZatBalance)::(const_from_u64|const_from_i64)$")
 
 
+def rule_version_predicates(chk, w):
+    """Which parts a transaction of a given version carries is decided by the TxVersion::has_* predicates, which
+    both the reader and the writer consult (a wrong answer makes read stop early or write drop a section). Their
+    decision tables are read off the MIR - every loop-free path with the values its switches take - and
+    evaluated for Sprout(1), Sprout(2), Sprout(3), Sprout(0x7fffffff), V3, V4, V5, V6 against the format rules:
+    JoinSplits from version 2 up to v4 (pre-Overwinter headers above 2 included, they use the v2 layout),
+    Overwinter fields from v3, Sapling from v4, Orchard from v5, Ironwood in v6."""
+    import guards as G
+    T_ = "zcash_primitives::transaction::"
+    adt = w.adts.get(T_ + "TxVersion")
+    if not adt:
+        chk.fail("VERSION", "predicates/missing", "TxVersion not found")
+        return
+    vnames = [v["name"] for v in adt["variants"]]
+    want = {
+        "has_sprout": lambda v, p: (p >= 2) if v == "Sprout" else v in ("V3", "V4"),
+        "has_overwinter": lambda v, p: v != "Sprout",
+        "has_sapling": lambda v, p: v in ("V4", "V5", "V6"),
+        "has_orchard": lambda v, p: v in ("V5", "V6"),
+        "has_ironwood": lambda v, p: v == "V6",
+    }
+    points = [("Sprout", 1), ("Sprout", 2), ("Sprout", 3), ("Sprout", 0x7fffffff)] + [(v, None) for v in vnames if v != "Sprout"]
+    for name, spec in sorted(want.items()):
+        fs = w.by_p.get(T_ + "TxVersion::" + name, [])
+        if len(fs) != 1:
+            chk.fail("VERSION", name + "/missing", "TxVersion::%s not found" % name)
+            continue
+        f = fs[0]
+        b, du = f.body, defuse.DefUse(f.body)
+        try:
+            paths = G.loopfree_paths(b)
+        except ValueError:
+            chk.fail("VERSION", name + "/paths", "TxVersion::%s is not loop-free" % name, f.span.loc())
+            continue
+
+        class Unknown(Exception):
+            pass
+
+        cur_blocks = [set()]
+
+        def ev(o, v, p):
+            if o[0] == "const" and isinstance(o[1], int):
+                return o[1]
+            if o[0] == "local":
+                # a boolean joined from constants (`matches!`): the constant assigned on this path
+                vals = [st.rv.ops[0].info.get("v") for bi in sorted(cur_blocks[0]) for st in b.blocks[bi].stmts
+                        if st.kind == "=" and st.place.local == o[1] and not st.place.proj and st.rv.kind == "use" and
+                        st.rv.ops[0].kind == "const"]
+                if len(vals) == 1 and vals[0] in (0, 1):
+                    return vals[0]
+                raise Unknown("_%d" % o[1])
+            if o[0] == "disc":
+                return vnames.index(v)
+            txt = defuse.show(o)
+            if re.search(r"as Sprout\)\.0$", txt):
+                if p is None:
+                    raise Unknown("payload of a non-Sprout version")
+                return p
+            if o[0] == "bin":
+                a, c = ev(o[2], v, p), ev(o[3], v, p)
+                r = {"Ge": a >= c, "Gt": a > c, "Le": a <= c, "Lt": a < c, "Eq": a == c, "Ne": a != c}.get(o[1])
+                if r is None:
+                    raise Unknown(o[1])
+                return int(r)
+            if o[0] == "un" and o[1] == "Not":
+                return int(not ev(o[2], v, p))
+            raise Unknown(txt[:60])
+
+        def result(blocks, v, p):
+            outs = []
+            for bi in sorted(blocks):
+                for st in b.blocks[bi].stmts:
+                    if st.kind == "=" and st.place.local == 0 and not st.place.proj:
+                        if st.rv.kind == "use" and st.rv.ops[0].kind == "const":
+                            outs.append(bool(st.rv.ops[0].info.get("v")))
+                        else:
+                            o = du.origin(st.rv.ops[0]) if st.rv.kind == "use" else \
+                                ("bin", st.rv.op, du.origin(st.rv.ops[0]), du.origin(st.rv.ops[1])) if st.rv.kind == "bin" else \
+                                ("un", st.rv.op, du.origin(st.rv.ops[0])) if st.rv.kind == "un" else None
+                            if o is None:
+                                raise Unknown("result")
+                            outs.append(bool(ev(o, v, p)))
+            return outs[-1] if outs else None
+        bad = None
+        try:
+            for v, p in points:
+                hits = []
+                for taken, blocks in paths:
+                    ok = True
+                    cur_blocks[0] = blocks
+                    for sw, val in taken:
+                        tm = b.blocks[sw].term
+                        x = ev(du.origin(tm.discr), v, p)
+                        arms = [a for a, _t in tm.arms]
+                        if (val == "else" and x in arms) or (val != "else" and x != val):
+                            ok = False
+                            break
+                    if ok:
+                        cur_blocks[0] = blocks
+                        hits.append(result(blocks, v, p))
+                if len(hits) != 1 or hits[0] is None:
+                    raise Unknown("%d paths for %s" % (len(hits), v))
+                if hits[0] != bool(spec(v, p)) and bad is None:
+                    bad = "%s%s -> %s, the format prescribes %s" % (v, "(%d)" % p if p is not None else "", hits[0], bool(spec(v, p)))
+        except Unknown as e:
+            chk.fail("VERSION", name + "/tests", "TxVersion::%s tests something this rule cannot evaluate: %s" % (name, e), f.span.loc())
+            continue
+        if bad is None:
+            chk.ok("VERSION", "TxVersion::%s answers as the format prescribes for all %d version points" % (name, len(points)),
+                   sample=(name == "has_sprout"))
+        else:
+            chk.fail("VERSION", name, "TxVersion::%s: %s" % (name, bad), f.span.loc())
+
+
+def rule_amount_range(chk, w):
+    """AMOUNT (range): the value-balance and amount fields of every transaction version are decoded through
+    ZatBalance::from_i64 / from_nonnegative_i64 and Zatoshis::from_u64. Each must accept exactly its range
+    (+-MAX_BALANCE, 0..=MAX_MONEY) and answer - not overflow - for every machine integer: the guard of the
+    constructing block is evaluated at the range's edges, one beyond them, and the type's extremes, with
+    64-bit overflow of `abs` / negation treated as "no answer" (a debug build panics there, a release build
+    accepts a wrapped value)."""
+    import guards as G
+    w2 = zf.World(extract.facts_dir("all"), ["zcash_protocol"])
+    MAXB = (w2.consts.get("zcash_protocol::value::MAX_BALANCE") or {}).get("v")
+    MAXM = (w2.consts.get("zcash_protocol::value::MAX_MONEY") or {}).get("v")
+    if not MAXB or not MAXM:
+        chk.fail("AMOUNT", "range/consts", "MAX_BALANCE / MAX_MONEY not found")
+        return
+    I64MIN, I64MAX, U64MAX = -(1 << 63), (1 << 63) - 1, (1 << 64) - 1
+    cases = [("ZatBalance::from_i64", -MAXB, MAXB, [I64MIN, -MAXB - 1, -MAXB, 0, MAXB, MAXB + 1, I64MAX], (I64MIN, I64MAX)),
+             ("ZatBalance::from_nonnegative_i64", 0, MAXB, [I64MIN, -1, 0, MAXB, MAXB + 1, I64MAX], (I64MIN, I64MAX)),
+             ("Zatoshis::from_u64", 0, MAXM, [0, MAXM, MAXM + 1, U64MAX], (0, U64MAX))]
+    # (Zatoshis::from_nonnegative_i64 is u64::try_from followed by from_u64)
+
+    class NoAnswer(Exception):
+        pass
+
+    for name, lo, hi, points, (tmin, tmax) in cases:
+        try:
+            f = w2.fn("zcash_protocol::value::" + name)
+        except KeyError:
+            chk.fail("AMOUNT", "range/%s/missing" % name, "%s not found" % name)
+            continue
+        b, du = f.body, defuse.DefUse(f.body)
+
+        def ev(o, x):
+            o = defuse.strip_refs(o)
+            if o[0] == "const" and isinstance(o[1], int):
+                return o[1]
+            if o[0] == "constdef":
+                v_ = (w2.consts.get(o[1]) or {}).get("v")
+                if v_ is None:
+                    raise NoAnswer("constant " + o[1])
+                return v_
+            if o == ("arg", 0):
+                return x
+            if o[0] == "cast":
+                return ev(o[2], x)
+            if o[0] == "un" and o[1] == "Neg":
+                v_ = -ev(o[2], x)
+                if not tmin <= v_ <= max(tmax, I64MAX):
+                    raise NoAnswer("negation overflows")
+                return v_
+            if o[0] == "call" and re.search(r"<impl i64>::abs$", o[1]):
+                v_ = ev(o[2][0], x)
+                if v_ == I64MIN:
+                    raise NoAnswer("abs() of i64::MIN overflows")
+                return abs(v_)
+            if o[0] == "call" and re.search(r"::unsigned_abs$", o[1]):
+                return abs(ev(o[2][0], x))
+            if o[0] == "call" and re.search(r"Range(Inclusive)?::<.*>::contains(::<.*>)?$|::contains$", o[1]) and len(o[2]) == 2:
+                r = defuse.strip_refs(o[2][0])
+                if r[0] == "call" and r[1].endswith("::new") and len(r[2]) == 2:
+                    a, c, incl = ev(r[2][0], x), ev(r[2][1], x), True
+                elif r[0] == "agg" and len(r[2]) == 2:
+                    a, c, incl = ev(r[2][0], x), ev(r[2][1], x), r[1].endswith("RangeInclusive")
+                else:
+                    raise NoAnswer("range " + defuse.show(r)[:40])
+                v_ = ev(o[2][1], x)
+                return int(a <= v_ <= c) if incl else int(a <= v_ < c)
+            if o[0] == "bin":
+                a, c = ev(o[2], x), ev(o[3], x)
+                r = {"Ge": a >= c, "Gt": a > c, "Le": a <= c, "Lt": a < c, "Eq": a == c, "Ne": a != c}.get(o[1])
+                if r is None:
+                    raise NoAnswer("operator " + o[1])
+                return int(r)
+            if o[0] == "un" and o[1] == "Not":
+                return int(not ev(o[2], x))
+            raise NoAnswer(defuse.show(o)[:50])
+        sites = [bi for bi, blk in enumerate(b.blocks) if not blk.cleanup for st in blk.stmts
+                 if st.kind == "=" and st.rv.kind == "agg" and st.rv.agg[0] == "adt" and
+                 st.rv.agg[1].startswith("zcash_protocol::value::Zat") and st.rv.ops and
+                 defuse.strip_refs(du.origin(st.rv.ops[0])) in (("arg", 0), ("cast", st.rv.agg[1], ("arg", 0))) or
+                 (st.kind == "=" and st.rv.kind == "agg" and st.rv.agg[0] == "adt" and st.rv.agg[1].startswith("zcash_protocol::value::Zat")
+                  and st.rv.ops and "arg0" in defuse.show(du.origin(st.rv.ops[0])))]
+        delegate = [t for bb, t in b.calls() if not b.blocks[bb].cleanup and t.callee.indirect is None and
+                    re.search(r"value::(ZatBalance|Zatoshis)::from_(i64|u64|nonnegative_i64)$", t.callee.target_p())]
+        if not sites and delegate:
+            chk.ok("AMOUNT", "%s delegates to %s" % (name, delegate[0].callee.target_p().rsplit("::", 2)[-2] + "::" +
+                                                     delegate[0].callee.target_p().rsplit("::", 1)[-1]))
+            continue
+        if len(sites) != 1:
+            chk.fail("AMOUNT", "range/%s/site" % name, "%s does not construct its value from its argument in one place (%d)" % (name, len(sites)),
+                     f.span.loc())
+            continue
+        conds = [(o, tr) for o, tr in G.facts(b, du, sites[0]) if tr is not None]
+        bad = None
+        for x in points:
+            try:
+                acc = all(bool(ev(o, x)) == tr for o, tr in conds)
+            except NoAnswer as e:
+                bad = "for %d the range test gives no answer: %s" % (x, e)
+                break
+            if acc != (lo <= x <= hi):
+                bad = "%d is %s, the range is [%d, %d]" % (x, "accepted" if acc else "rejected", lo, hi)
+                break
+        if bad is None and conds:
+            chk.ok("AMOUNT", "%s accepts exactly [%d, %d] and answers for the type's extremes (%d points)" % (name, lo, hi, len(points)),
+                   sample=(name == "ZatBalance::from_i64"))
+        else:
+            chk.fail("AMOUNT", "range/" + name, "%s: %s" % (name, bad or "the construction is unguarded"), f.span.loc())
+
+
 def rule_version_table(chk, w):
     """The header codec is a table: TxVersion::read accepts a (version number, version group id) pair
     for a variant exactly when TxVersion::header / version_group_id emit that pair for it. Read off
@@ -850,6 +1073,8 @@ def main(tier):
     attr = rule_wire(chk, w)
     rule_dispatch(chk, w)
     rule_version_table(chk, w)
+    rule_version_predicates(chk, w)
+    rule_amount_range(chk, w)
     rule_limit(chk, w)
     canon_ok = rule_canon(chk, w)
     rule_hash(chk, w)
